@@ -87,9 +87,10 @@ func (k Kind) Bits() int {
 
 // Field is one struct field of a struct Type.
 type Field struct {
-	Name string `json:"name"`          // Go field name (exported iff it starts with an upper-case letter)
-	Tag  string `json:"tag,omitempty"` // raw struct tag, e.g. `bexpr:"a" alt:"-"`
-	T    *Type  `json:"t"`
+	Name     string `json:"name"`               // Go field name (exported iff it starts with an upper-case letter)
+	Tag      string `json:"tag,omitempty"`      // raw struct tag, e.g. `bexpr:"a" alt:"-"`
+	Embedded bool   `json:"embedded,omitempty"` // anonymous (embedded) field; the selector library treats it as a field named Name
+	T        *Type  `json:"t"`
 }
 
 func (f Field) Exported() bool { return f.Name != "" && f.Name[0] >= 'A' && f.Name[0] <= 'Z' }
@@ -198,7 +199,7 @@ func (t *Type) Reflect() reflect.Type {
 	case KStruct:
 		fs := make([]reflect.StructField, len(t.Fields))
 		for i, f := range t.Fields {
-			fs[i] = reflect.StructField{Name: f.Name, Type: f.T.Reflect(), Tag: reflect.StructTag(f.Tag)}
+			fs[i] = reflect.StructField{Name: f.Name, Type: f.T.Reflect(), Tag: reflect.StructTag(f.Tag), Anonymous: f.Embedded}
 			if !f.Exported() {
 				fs[i].PkgPath = unexportedPkgPath
 			}
@@ -252,6 +253,9 @@ func (t *Type) String() string {
 		for i, f := range t.Fields {
 			if i > 0 {
 				sb.WriteString("; ")
+			}
+			if f.Embedded {
+				sb.WriteString("embedded ")
 			}
 			sb.WriteString(f.Name + " " + f.T.String())
 			if f.Tag != "" {
